@@ -79,11 +79,13 @@ class ScalingOperator(EndomorphicOperator):
         fct = self._factor
         if fct == 1.:
             return x
-        if fct == 0.:
-            return full(x.domain, 0., x.device_id)
-
         MODES_WITH_ADJOINT = self.ADJOINT_TIMES | self.ADJOINT_INVERSE_TIMES
         MODES_WITH_INVERSE = self.INVERSE_TIMES | self.ADJOINT_INVERSE_TIMES
+        if fct == 0.:
+            if (mode & MODES_WITH_INVERSE) != 0:
+                raise ValueError("operator not invertible")
+            return full(x.domain, 0., x.device_id)
+
         if (mode & MODES_WITH_ADJOINT) != 0:
             fct = np.conj(fct)
         if (mode & MODES_WITH_INVERSE) != 0:
